@@ -22,6 +22,15 @@ pub enum Ty {
     /// The library's own nucleotide symbol: an element type whose default value (N = 4) is not the
     /// all-zero bit pattern.
     Nuc,
+    /// 2-byte elements.
+    U16,
+    /// 8-byte floating-point elements.
+    F64,
+    /// Elements whose size (3 bytes, alignment 1) does not divide the 32-byte alignment unit: a padded row is
+    /// not a whole number of elements.
+    B3,
+    /// 12-byte elements (alignment 4), same remark.
+    F3,
 }
 
 #[derive(Clone, Copy, Debug, Serialize, Deserialize, PartialEq, Eq)]
@@ -65,6 +74,59 @@ pub trait Elem: MatrixElement + PartialEq + std::fmt::Debug + 'static {
     fn from_i(i: i64) -> Self;
     fn to_i(self) -> i64;
     const NAME: &'static str;
+    /// Another representation of the same value, if the type has one (a value that compares equal with
+    /// `PartialEq` but has different bytes): +0.0 / -0.0 for floats.
+    fn twin(self) -> Self {
+        self
+    }
+}
+impl Elem for u16 {
+    fn from_i(i: i64) -> Self {
+        i.rem_euclid(1 << 16) as u16
+    }
+    fn to_i(self) -> i64 {
+        self as i64
+    }
+    const NAME: &'static str = "u16";
+}
+impl Elem for f64 {
+    fn from_i(i: i64) -> Self {
+        (i.rem_euclid(1 << 40) - (1 << 39)) as f64
+    }
+    fn to_i(self) -> i64 {
+        self as i64
+    }
+    const NAME: &'static str = "f64";
+    fn twin(self) -> Self {
+        if self == 0.0 {
+            -self
+        } else {
+            self
+        }
+    }
+}
+impl Elem for [u8; 3] {
+    fn from_i(i: i64) -> Self {
+        let v = i.rem_euclid(1 << 24);
+        [v as u8, (v >> 8) as u8, (v >> 16) as u8]
+    }
+    fn to_i(self) -> i64 {
+        self[0] as i64 | (self[1] as i64) << 8 | (self[2] as i64) << 16
+    }
+    const NAME: &'static str = "[u8;3]";
+}
+impl Elem for [f32; 3] {
+    fn from_i(i: i64) -> Self {
+        let v = i.rem_euclid(1 << 30);
+        [(v & 1023) as f32, ((v >> 10) & 1023) as f32, ((v >> 20) & 1023) as f32]
+    }
+    fn to_i(self) -> i64 {
+        self[0] as i64 | (self[1] as i64) << 10 | (self[2] as i64) << 20
+    }
+    const NAME: &'static str = "[f32;3]";
+    fn twin(self) -> Self {
+        [self[0].twin(), self[1].twin(), self[2].twin()]
+    }
 }
 impl Elem for u8 {
     fn from_i(i: i64) -> Self {
@@ -92,6 +154,13 @@ impl Elem for f32 {
         self as i64
     }
     const NAME: &'static str = "f32";
+    fn twin(self) -> Self {
+        if self == 0.0 {
+            -self
+        } else {
+            self
+        }
+    }
 }
 impl Elem for lightmotif::abc::Nucleotide {
     fn from_i(i: i64) -> Self {
@@ -157,7 +226,9 @@ fn check_all<T: Elem, C: ArrayLength>(m: &DenseMatrix<T, C>, model: &[Vec<T>]) -
     if stride < c {
         return Some(("stride".into(), format!("stride {} < columns {}", stride, c)));
     }
-    if (stride * std::mem::size_of::<T>()) % align != 0 {
+    // for element sizes that do not divide the alignment unit this clause is checked once, at the end of the
+    // run (see run_typed), so that it does not mask everything else about those element types
+    if align % std::mem::size_of::<T>() == 0 && (stride * std::mem::size_of::<T>()) % align != 0 {
         return Some(("stride".into(), format!("stride {} x {} bytes is not a whole number of {}-byte units", stride, std::mem::size_of::<T>(), align)));
     }
     for (r, want) in model.iter().enumerate() {
@@ -275,14 +346,15 @@ fn run_typed<T: Elem, C: ArrayLength + PartialEq>(sc: &Sc, o: &mut Outcome) {
             })
             .map(|_| None),
             Op::EqOtherRoute => {
-                // a logically equal matrix built by another route, with different padding bytes
+                // a logically equal matrix built by another route, with different padding bytes and, where the
+                // element type has them, other representations of the same values (0.0 / -0.0)
                 let rows = model.clone();
                 sut(|| {
                     let mut other = DenseMatrix::<T, C>::new(rows.len());
                     other.fill(T::from_i(0x5151_5151_5151));
                     for (r, row) in rows.iter().enumerate() {
                         for (col, &x) in row.iter().enumerate() {
-                            other[r][col] = x;
+                            other[r][col] = if (r + col) % 2 == 0 { x.twin() } else { x };
                         }
                     }
                     (m == other, other == m)
@@ -523,6 +595,25 @@ fn run_typed<T: Elem, C: ArrayLength + PartialEq>(sc: &Sc, o: &mut Outcome) {
         }
         crate::ev!(o.trace, "op#{} {:?} rows={}", i, op, model.len());
     }
+    // "the stride is ... a whole number of alignment units", for element sizes that do not divide the unit
+    let align = if cfg!(target_arch = "x86_64") { 32 } else { 16 };
+    if STRIDE_UNITS_CHECK.with(|c| c.get()) && o.violation.is_none() && align % std::mem::size_of::<T>() != 0 {
+        let stride = m.stride();
+        if (stride * std::mem::size_of::<T>()) % align != 0 {
+            o.violate(Violation::new(
+                "stride-not-whole-alignment-units",
+                format!("type={}", T::NAME),
+                format!(
+                    "stride() = {} elements of {} bytes = {} bytes, which is not a whole number of {}-byte alignment units (rows are {} bytes apart)",
+                    stride,
+                    std::mem::size_of::<T>(),
+                    stride * std::mem::size_of::<T>(),
+                    align,
+                    if model.len() >= 2 { (m[1].as_ptr() as usize - m[0].as_ptr() as usize).to_string() } else { "?".to_string() }
+                ),
+            ));
+        }
+    }
     if let Err(p) = sut(move || drop(m)) {
         o.violate(Violation::new(p.class(), "op=drop", p.msg));
     }
@@ -539,10 +630,16 @@ fn run_typed<T: Elem, C: ArrayLength + PartialEq>(sc: &Sc, o: &mut Outcome) {
 
 pub struct DenseSim;
 
+thread_local! {
+    /// The end-of-run stride clause of C19 for element sizes that do not divide the alignment unit is only
+    /// checked when the histories run for C19 itself (the `mem` simulator re-uses them for C06).
+    static STRIDE_UNITS_CHECK: std::cell::Cell<bool> = const { std::cell::Cell::new(false) };
+}
+
 pub fn gen_world(r: &mut Prng, idx: u64) -> Sc {
-    let ty = [Ty::U8, Ty::U32, Ty::F32, Ty::I64, Ty::Nuc][(idx % 5) as usize];
-    let columns = [1usize, 5, 7, 16, 21, 32, 43][((idx / 5) % 7) as usize];
-    let alloc = if (idx / 35) % 3 == 0 { Policy::System } else { Policy::ExactPoison };
+    let ty = [Ty::U8, Ty::U32, Ty::F32, Ty::I64, Ty::Nuc, Ty::U16, Ty::F64, Ty::B3, Ty::F3][(idx % 9) as usize];
+    let columns = [1usize, 5, 7, 16, 21, 32, 43][((idx / 9) % 7) as usize];
+    let alloc = if (idx / 63) % 3 == 0 { Policy::System } else { Policy::ExactPoison };
     let n = r.range(3, 30);
     let mut ops = Vec::with_capacity(n);
     // one world in 500 works with matrices beyond 2 MiB / 2^16 rows (few operations: every check is O(rows))
@@ -619,6 +716,10 @@ pub fn run_sc(sc: &Sc, o: &mut Outcome) {
         Ty::F32 => "type=f32",
         Ty::I64 => "type=i64",
         Ty::Nuc => "type=Nucleotide",
+        Ty::U16 => "type=u16",
+        Ty::F64 => "type=f64",
+        Ty::B3 => "type=[u8;3]",
+        Ty::F3 => "type=[f32;3]",
     });
     match sc.ty {
         Ty::U8 => dispatch_c!(u8, sc, o),
@@ -626,6 +727,10 @@ pub fn run_sc(sc: &Sc, o: &mut Outcome) {
         Ty::F32 => dispatch_c!(f32, sc, o),
         Ty::I64 => dispatch_c!(i64, sc, o),
         Ty::Nuc => dispatch_c!(lightmotif::abc::Nucleotide, sc, o),
+        Ty::U16 => dispatch_c!(u16, sc, o),
+        Ty::F64 => dispatch_c!(f64, sc, o),
+        Ty::B3 => dispatch_c!([u8; 3], sc, o),
+        Ty::F3 => dispatch_c!([f32; 3], sc, o),
     }
 }
 
@@ -646,7 +751,9 @@ impl Sim for DenseSim {
 
     fn run(_prop: &str, sc: &Sc, keep_trace: bool) -> Outcome {
         let mut o = Outcome::new(keep_trace);
+        STRIDE_UNITS_CHECK.with(|c| c.set(true));
         run_sc(sc, &mut o);
+        STRIDE_UNITS_CHECK.with(|c| c.set(false));
         o
     }
 
@@ -732,7 +839,7 @@ impl Sim for DenseSim {
     }
 
     fn rule(_prop: &str) -> String {
-        "Cases: histories of 3..30 operations (new, with_capacity, from_rows, uninitialized + full write, resize up / down / same, reserve, row write, cell write by [row][col] and by MatrixCoordinates, fill, clone, clone_from / clone_into from a taller or shorter matrix, equality against a logically equal matrix built by another route with different padding bytes, inequality after a one-cell change or a row-count change, forward / reverse / alternating-ends / mutable / reverse-mutable / by-reference iteration, positional adaptors nth / nth_back / rev().skip / step_by / last / count / take().rev) on DenseMatrix<T, C>, T in {u8, u32, f32, i64, Nucleotide (default value N = 4, not the zero bit pattern)}, C in {1, 5, 7, 16, 21, 32, 43}, under the system allocator or the exact-align+poison allocator (addresses are multiples of the requested alignment but never of twice it; fresh memory 0xA5; freed memory 0x5A; growth always moves). After every operation: row count, column count, stride >= C and a whole number of 32-byte units, every row's address mod 32 = 0, every cell equal to the Vec<Vec<T>> model. Distinct = distinct tuples (T, C, allocator policy, first operation trigram). Non-trivial = at least three operations (every history).".to_string()
+        "Cases: histories of 3..30 operations (new, with_capacity, from_rows, uninitialized + full write, resize up / down / same, reserve, row write, cell write by [row][col] and by MatrixCoordinates, fill, clone, clone_from / clone_into from a taller or shorter matrix, equality against a logically equal matrix built by another route with different padding bytes, inequality after a one-cell change or a row-count change, forward / reverse / alternating-ends / mutable / reverse-mutable / by-reference iteration, positional adaptors nth / nth_back / rev().skip / step_by / last / count / take().rev) on DenseMatrix<T, C>, T in {u8, u16, u32, f32, f64, i64, Nucleotide (default value N = 4, not the zero bit pattern), [u8; 3] and [f32; 3] (3- and 12-byte elements: sizes that do not divide the 32-byte unit)}; equality also against 0.0 / -0.0 twins of the float cells, C in {1, 5, 7, 16, 21, 32, 43}, under the system allocator or the exact-align+poison allocator (addresses are multiples of the requested alignment but never of twice it; fresh memory 0xA5; freed memory 0x5A; growth always moves). After every operation: row count, column count, stride >= C and a whole number of 32-byte units (for element sizes that do not divide 32 this clause is checked once, at the end of the history), every row's address mod 32 = 0, every cell equal to the Vec<Vec<T>> model. Distinct = distinct tuples (T, C, allocator policy, first operation trigram). Non-trivial = at least three operations (every history).".to_string()
     }
 
     fn required_probes(_prop: &str, _tier: Tier) -> Vec<&'static str> {
